@@ -116,12 +116,20 @@ package protocol
 //@   assert @C17 before append#3: qok && 0 <= qk && qk < qn && i == qpos[qk] ==> 0 <= qx[qk] && qx[qk] <= 255
 //@   assert @C17 before append#3: qok && 0 <= qk && qk < qn && i == qpos[qk] ==> 0 <= x1 && x1 < 16 && 0 <= x2 && x2 < 16 && x1 * 16 + x2 == qx[qk]
 //@   ensures @C03 extends(r, dst) && spareOnly(dst)
-//@   top-ensures @C17 qok ==> len(r) == len(dst) + qn && forallT(k, 0, qn, qx[k], r[len(dst) + k] == qx[k])
+//@   ensures @C17 qok ==> len(r) == len(dst) + qn && forallT(k, 0, qn, qx[k], r[len(dst) + k] == qx[k])
 //@   loop 0:
 //@     invariant 0 <= i && i <= len(src)
 //@     invariant @C03 extends(dst, old(dst)) && spareOnly(old(dst))
 //@     invariant @C17 qok ==> 0 <= qk && qk <= qn && i == qpos[qk] && len(dst) == len(old(dst)) + qk
 //@     invariant @C17 qok ==> forallT(j, 0, qk, qx[j], dst[len(old(dst)) + j] == qx[j])
+
+// C17: decode(encode(x)) == x for every byte string x (the function is a verif-tagged composition of the two).
+//@ func verifArgRoundTrip(x) r
+//@   props C17
+//@   allocates
+//@   modifies qx, qpos, qn, qfs, qk, qok
+//@   ghostset after AppendQuotedArg#0: qok = true
+//@   top-ensures @C17 len(r) == len(x) && forall(k, 0, len(x), r[k] == qx[k] && qx[k] == old(x[k]))
 
 //@ func decodeCookieArg(dst, src, skipQuotes) r
 //@   props C03
